@@ -362,9 +362,17 @@ def execute(scenario, tape=None, keep_events=False):
                     return body
 
                 ent.max_draws_per_op = 10**9
-                sched, died = callersim.run_callers(
-                    sub_rng(sc["seed"], "sched"), log, [make(si, s) for si, s in enumerate(sc["sends"])], sc["strategy"], [txm.__file__, utils.__file__, ecmath.__file__, keys.__file__], tape=tape, step_cap=8000000
-                )
+                from sim import sched as S_
+
+                try:
+                    sched, died = callersim.run_callers(
+                        sub_rng(sc["seed"], "sched"), log, [make(si, s) for si, s in enumerate(sc["sends"])], sc["strategy"], [txm.__file__, utils.__file__, ecmath.__file__, keys.__file__], tape=tape, step_cap=8000000
+                    )
+                except S_.StepCapExceeded as e:
+                    res.violations.append(Violation("nontermination", "concurrent callers", str(e), {"stratum": "concurrent"}).to_json())
+                    res.digest = log.digest()
+                    res.nontrivial = True
+                    return res
                 out_tape = sched.tape_out
                 faults.hit("preemptive-switch", sched.switches)
                 for ti, exc in enumerate(died):
@@ -400,7 +408,10 @@ def execute(scenario, tape=None, keep_events=False):
                     "stratum": sc["stratum"],
                 }
                 where = f"send={si} sender={idn['kind']}"
-                if not reported or lo - fee < 600:
+                # requested amount below the fee: the only right answers are a refusal or nothing;
+                # a returned transaction is judged like any other (it cannot satisfy the invariants)
+                insufficient = bool(reported) and hi - fee < 0
+                if not reported or (not insufficient and lo - fee < 600):
                     log.add(si, "driver", "skip", "nothing to send")
                     probes.hit("send-skipped-insufficient-funds")
                     continue
@@ -442,6 +453,8 @@ def execute(scenario, tape=None, keep_events=False):
                 if raw is None:
                     if fault_fired:
                         probes.hit("raised-under-rpc-fault")
+                    elif insufficient:
+                        probes.hit("refused-amount-below-fee")
                     else:
                         viols.append(Violation("refused", where + f" recipient={r_kind} change={'given' if s['change'] else 'none'}", exc, feats))
                     continue
